@@ -17,7 +17,10 @@ ids = [a for a in args if not a.startswith("--") and not a.replace(",", "").isdi
 
 
 def sh(cmd, **kw):
-    p = subprocess.run(cmd, shell=isinstance(cmd, str), stdout=subprocess.PIPE, stderr=subprocess.STDOUT, **kw)
+    try:
+        p = subprocess.run(cmd, shell=isinstance(cmd, str), stdout=subprocess.PIPE, stderr=subprocess.STDOUT, timeout=2400, **kw)
+    except subprocess.TimeoutExpired as e:
+        return 124, (e.stdout or b"").decode() + "\nTIMEOUT"
     return p.returncode, p.stdout.decode()
 
 
